@@ -21,6 +21,7 @@ import (
 	"sync"
 	"syscall"
 	"time"
+	"verifharness/peers"
 
 	"github.com/pkg/sftp"
 
@@ -638,7 +639,7 @@ func xfStartPair(spec xfSrvSpec, cfg xfCfg, dir string) (*xfReal, error) {
 		if spec.MaxTx != 0 {
 			so = append(so, sftp.WithMaxTxPacket(spec.MaxTx))
 		}
-		srv, err := sftp.NewServer(rwc, so...)
+		srv, err := peers.NewOSServer(rwc, so...)
 		if err != nil {
 			return nil, err
 		}
@@ -1334,7 +1335,7 @@ func xfInChild(c *lib.Ctx, id string, body func(c *lib.Ctx)) {
 		body(c)
 		return
 	}
-	dir, err := os.MkdirTemp("", "vh-"+id+"-parent-")
+	dir, err := lib.MkScratch("vh-" + id + "-parent-")
 	if err != nil {
 		c.R.Fail(lib.Failure{Kind: "tie", Key: "tmpdir", What: err.Error()})
 		return
